@@ -9,11 +9,28 @@ Local Open Scope N_scope.
 
 Definition str_list_eqb (a b : list str) : bool := list_eqb str_eqb a b.
 
+(* the way to a cache hit in loadcache(), as guards that must hold and file operations, in order
+   (independent of early-return / nested-if phrasing; trivial helpers and local aliases inlined) *)
+Definition loadcache_path_expected : list str := map lit
+  [ "set: self.fromcache = False";
+    "guard: self.vfs.iswritable(self.cachename)";
+    "op: self.vfs.stat(self.cachename) [OSError -> miss]";
+    "guard: time.time() - statval[stat.ST_MTIME] < self.cachetime";
+    "op: self.vfs.open(self.cachename, 'rb') [Exception -> miss]";
+    "op: pickle.load(fp) [Exception -> miss]";
+    "set: self.fromcache = True";
+    "hit" ]%string.
+Definition savecache_path_expected : list str := map lit
+  [ "guard: not self.fromcache";
+    "guard: self.vfs.iswritable(self.cachename)";
+    "op: self.vfs.open(self.cachename, 'wb') [IOError -> ignored]";
+    "op: pickle.dump(self.fileentries, fp, 1) [IOError -> ignored]" ]%string.
+
 Definition cache_site_check : bool :=
   str_list_eqb dir_options (map lit ["cachefile"; "cachetime"; "ignorepatt"]%string) &&
   str_list_eqb cachename_exprs [lit "self.selector + '/' + self.cachefile"%string] &&
-  str_list_eqb freshness_tests [lit "time.time() - statval[stat.ST_MTIME] < self.cachetime"%string] &&
-  loadcache_guarded && savecache_guarded &&
+  str_list_eqb loadcache_path loadcache_path_expected &&
+  str_list_eqb savecache_path savecache_path_expected &&
   str_list_eqb cachename_users (map lit ["loadcache"; "savecache"]%string).
 
 Lemma cache_site_as_modelled : cache_site_check = true.
